@@ -133,7 +133,7 @@ var worksizeExempt = map[string]string{
 
 func init() {
 	properties["C01"] = &property{
-		explanation: "Decides structural necessary conditions of C01 for all BLAS code paths: TWIN.generated — every generated float32/complex64 routine (and sgemm, the dot variants, the blas32/cblas64/cblas128 conversions), none of which has tests of its own at Level 2/3, is node for node the image of its tested float64/complex128 source under the generator's renaming; MODSET.blas — for all 142 routines the set of slice operands that may be written (SSA store/copy/call summaries with a level-sensitive points-to abstraction, bottom-up over the VTA call graph, analysed under the noasm tag so that every kernel has a Go body) equals the output operands of the BLAS standard for the routine's stem ('every read-only operand is unchanged', up to caller-supplied aliasing); STRIDE — no operand of blas/gonum, the blas64/blas32/cblas* wrappers or the internal/asm Go kernels is indexed, sliced or forwarded with another operand's ld/inc/Stride (units inferred by flow-insensitive fixpoint over integer locals). STRIDE.extent — the element count of a strided vector in its length check, its negative-increment start offset and (in the kernels) its loop bound is one quantity; the start-index arguments (ix, iy) of the strided kernels obey the index rules; FLAG.trans — no real-valued routine or blas64/blas32 wrapper that accepts blas.ConjTrans distinguishes it from blas.Trans in any condition or switch. FLAG.neginc — the 18 Level 1 routines that return at once for a negative increment are discovered from their bodies; a routine that accepts negative values of its own increment parameter hands it to one of them unchanged only under a test that it is positive (Dgemv's beta-scaling of y). ASM.window/.tail/.units on the 56 assembly kernels. Does not decide arithmetic correctness of the loop nests, rounding, or the arithmetic of the assembly.",
+		explanation: "Decides structural necessary conditions of C01 for all BLAS code paths: TWIN.generated — every generated float32/complex64 routine (and sgemm, the dot variants, the blas32/cblas64/cblas128 conversions), none of which has tests of its own at Level 2/3, is node for node the image of its tested float64/complex128 source under the generator's renaming; MODSET.blas — for all 142 routines the set of slice operands that may be written (SSA store/copy/call summaries with a level-sensitive points-to abstraction, bottom-up over the VTA call graph, analysed under the noasm tag so that every kernel has a Go body) equals the output operands of the BLAS standard for the routine's stem ('every read-only operand is unchanged', up to caller-supplied aliasing); STRIDE — no operand of blas/gonum, the blas64/blas32/cblas* wrappers or the internal/asm Go kernels is indexed, sliced or forwarded with another operand's ld/inc/Stride (units inferred by flow-insensitive fixpoint over integer locals). STRIDE.extent — the element count of a strided vector in its length check, its negative-increment start offset and (in the kernels) its loop bound is one quantity; the start-index arguments (ix, iy) of the strided kernels obey the index rules; FLAG.trans — no real-valued routine or blas64/blas32 wrapper that accepts blas.ConjTrans distinguishes it from blas.Trans in any condition or switch. BETA.noread — in each of the 138 arms selected by beta == 0 the operand being assigned is never read (no element read, compound assignment, value range or kernel call on it), so NaN/Inf left in the output storage cannot propagate when beta == 0. FLAG.neginc — the 18 Level 1 routines that return at once for a negative increment are discovered from their bodies; a routine that accepts negative values of its own increment parameter hands it to one of them unchanged only under a test that it is positive (Dgemv's beta-scaling of y). ASM.window/.tail/.units on the 56 assembly kernels. Does not decide arithmetic correctness of the loop nests, rounding, or the arithmetic of the assembly.",
 		assumptions: commonAssumptions,
 		run: func(tier string, res *core.Result) {
 			r := stride.Run(def, core.Pkgs(blasPkgs...))
@@ -154,6 +154,10 @@ func init() {
 			fl.Floor("transpose_params", 50)
 			fl.Floor("decisions", 60)
 			res.Merge(fl)
+			bz := flagx.RunBetaZero(def, core.Pkgs("./blas/gonum"))
+			bz.Floor("beta_zero_arms_storing_an_operand", 110)
+			res.Merge(bz)
+			res.Merge(flagx.RunBetaZero(core.Config{Tags: "noasm"}, core.Pkgs("./internal/asm/f64", "./internal/asm/f32")))
 			ni := flagx.RunNegInc(def, core.Pkgs("./blas/gonum"))
 			ni.Floor("routines_returning_at_once_for_negative_increments", 12)
 			ni.Floor("increment_parameters_forwarded_to_quick_returning_routines", 2)
@@ -625,6 +629,8 @@ func dump(argv []string) {
 		res = flagx.RunUploMap(def, core.Pkgs(argv[1:]...))
 	case "neginc":
 		res = flagx.RunNegInc(def, core.Pkgs(argv[1:]...))
+	case "betazero":
+		res = flagx.RunBetaZero(def, core.Pkgs(argv[1:]...))
 	case "global":
 		res = globalx.Run(def, core.Pkgs(argv[1:]...), globalx.Options{})
 	case "arms":
